@@ -6,9 +6,10 @@ use std::sync::Arc;
 pub mod cache;
 pub mod kmt;
 pub mod lru;
+pub mod store;
 
 pub fn all() -> Vec<Box<dyn DynScenario>> {
-    vec![Box::new(Erased(Arc::new(lru::Lru))), Box::new(Erased(Arc::new(cache::Cache))), Box::new(Erased(Arc::new(kmt::Kmt)))]
+    vec![Box::new(Erased(Arc::new(lru::Lru))), Box::new(Erased(Arc::new(cache::Cache))), Box::new(Erased(Arc::new(kmt::Kmt))), Box::new(Erased(Arc::new(store::Store)))]
 }
 
 pub fn by_property(id: &str) -> Option<Box<dyn DynScenario>> {
